@@ -49,7 +49,7 @@ func TestVerifPartiallyBlindRSA(t *testing.T) {
 	var cases []pbCase
 	for ki, name := range safeKeyNames {
 		k := loadKey(t, name)
-		n := lib.Scale([]int{8, 6, 6}[ki], []int{600, 400, 300}[ki])
+		n := lib.Scale([]int{8, 8, 6, 6}[ki], []int{600, 500, 400, 300}[ki])
 		for run := 0; run < n; run++ {
 			h := crypto.SHA384
 			if run%6 == 4 {
